@@ -199,6 +199,67 @@ func exec(op string) (res string) {
 		incl := cassLe(gocql.MinTimeUUID(ta), u) && cassLe(u, gocql.MaxTimeUUID(tb))
 		excl := !cassLe(u, gocql.MaxTimeUUID(ta)) && !cassLe(gocql.MinTimeUUID(tb), u)
 		return "incl=" + io(incl) + " excl=" + io(excl)
+	case "randn":
+		// RandomUUID / MustRandomUUID when the random source can deliver only these bytes
+		b := hx(1)
+		old := rand.Reader
+		defer func() { rand.Reader = old }()
+		rand.Reader = bytes.NewReader(b)
+		u, err := gocql.RandomUUID()
+		rand.Reader = bytes.NewReader(b)
+		must := func() (res string) {
+			defer func() {
+				if recover() != nil {
+					res = "panic"
+				}
+			}()
+			if m := gocql.MustRandomUUID(); m != u {
+				return "DIFFERENT:" + vh.Hex(m[:])
+			}
+			return "ok"
+		}()
+		if err != nil {
+			return fmt.Sprintf("err %s must=%s", vh.Hex(u[:]), must)
+		}
+		return fmt.Sprintf("ok %s v=%d var=%d must=%s", vh.Hex(u[:]), u.Version(), u.Variant(), must)
+	case "mcqlx":
+		var v interface{}
+		switch w[1] {
+		case "unset":
+			v = gocql.UnsetValue
+		case "nilval":
+			v = nil
+		case "int":
+			v = 5
+		case "float":
+			v = 1.5
+		case "bool":
+			v = true
+		case "time":
+			v = time.Unix(0, 0)
+		case "arr15":
+			v = [15]byte{}
+		case "uuidslice":
+			v = []gocql.UUID{{}}
+		default:
+			panic("bad-op: value kind")
+		}
+		for _, typ := range []gocql.Type{gocql.TypeUUID, gocql.TypeTimeUUID} {
+			b, err := gocql.Marshal(gocql.NewNativeType(4, typ, ""), v)
+			if err != nil {
+				if typ == gocql.TypeTimeUUID {
+					return "err"
+				}
+				continue
+			}
+			if b != nil {
+				return "ok " + vh.Hex(b)
+			}
+			if typ == gocql.TypeTimeUUID {
+				return "ok null"
+			}
+		}
+		return "INCONSISTENT"
 	case "randchk":
 		b := hx(1)
 		old := rand.Reader
@@ -607,6 +668,15 @@ func main() {
 		{
 			op, cls := genRange(r, sec, ns)
 			out.Case(op, exec(op), cls, true)
+		}
+		if i%4 == 0 {
+			n := []int{0, 1, 8, 15, 16, 17, 32}[r.Intn(7)]
+			op = "randn " + vh.Hex(r.Bytes(n))
+			out.Case(op, exec(op), fmt.Sprintf("randn/%d", n), true)
+		}
+		if i < 64 {
+			op = "mcqlx " + []string{"unset", "nilval", "int", "float", "bool", "time", "arr15", "uuidslice"}[i%8]
+			out.Case(op, exec(op), "mcqlx", i < 8)
 		}
 		op = "randchk " + vh.Hex(genUUIDBytes(r))
 		out.Case(op, exec(op), "randchk", true)
